@@ -3,6 +3,7 @@
 package hdf5
 
 import (
+	"encoding/binary"
 	"os"
 
 	"github.com/scigolib/hdf5/internal/vrt"
@@ -80,3 +81,120 @@ func VerifH_C07_api_shared_group_ladder() {
 	}
 	vrt.Covered("ladder-opened")
 }
+
+// thorough tier: the two-byte window sweeps whole library-written files (every even offset), in slices that run in
+// parallel. Files: dense attributes (v2 superblock), chunked + groups (v0 superblock, symbol tables), vlen strings.
+func verifSweepFile(kind int) string {
+	switch kind {
+	case 0:
+		verifDenseFile("c07s.h5")
+	case 1:
+		fw, err := CreateForWrite("c07s.h5", CreateTruncate, WithSuperblockVersion(0))
+		vrt.AssertNoErr(err, "create-ok")
+		_, err = fw.CreateGroup("/g")
+		vrt.AssertNoErr(err, "group-ok")
+		c, err := fw.CreateDataset("/g/c", Int32, []uint64{4}, WithChunkDims([]uint64{2}))
+		vrt.AssertNoErr(err, "create-dataset-ok")
+		vrt.AssertNoErr(c.WriteAttribute("k", int32(5)), "attr-ok")
+		vrt.AssertNoErr(c.Write([]int32{1, 2, 3, 4}), "write-ok")
+		vrt.AssertNoErr(fw.CreateSoftLink("/s", "/g/c"), "softlink-ok")
+		vrt.AssertNoErr(fw.Close(), "close-ok")
+	default:
+		fw, err := CreateForWrite("c07s.h5", CreateTruncate)
+		vrt.AssertNoErr(err, "create-ok")
+		d, err := fw.CreateDataset("/v", VLenString, []uint64{2})
+		vrt.AssertNoErr(err, "create-dataset-ok")
+		vrt.AssertNoErr(d.Write([]string{"ab", "cde"}), "write-ok")
+		vrt.AssertNoErr(fw.Close(), "close-ok")
+	}
+	return "c07s.h5"
+}
+
+// the windows are the even offsets inside the 8-byte words of the file that are not all zero;
+// slice k covers windows 32k .. 32k+31 of that list
+func verifSweep(kind, slice int) { verifSweepRange(kind, slice*32, slice*32+32) }
+
+func verifSweepRange(kind, lo, hi int) {
+	vrt.LoopBound(400000)
+	vrt.AllocBudget(1 << 30)
+	vrt.SampleSizes()
+	name := verifSweepFile(kind)
+	raw, err := os.ReadFile(name)
+	vrt.AssertNoErr(err, "raw-read-ok")
+	var offs []int
+	for w := 0; w+8 <= len(raw); w += 8 {
+		if binary.LittleEndian.Uint64(raw[w:w+8]) != 0 {
+			offs = append(offs, w, w+2, w+4, w+6)
+		}
+	}
+	if hi > len(offs) {
+		hi = len(offs)
+	}
+	if lo >= hi {
+		vrt.Covered("corrupted-file-dumped")
+		return
+	}
+	off := offs[lo+vrt.Choice(hi-lo)]
+	nb := vrt.Bytes(2)
+	raw[off], raw[off+1] = nb[0], nb[1]
+	vrt.AssertNoErr(os.WriteFile(name, raw, 0o644), "rewrite-ok")
+	_, _ = verifDumpFile(name)
+	if kind == 2 {
+		if f, err := Open(name); err == nil {
+			f.Walk(func(p string, o Object) {
+				if d, ok := o.(*Dataset); ok {
+					_, _ = d.ReadStrings()
+				}
+			})
+			_ = f.Close()
+		}
+	}
+	vrt.Covered("corrupted-file-dumped")
+}
+
+func VerifH_C07_api_sweep_dense_00_thorough() { verifSweep(0, 0) }
+func VerifH_C07_api_sweep_dense_01_thorough() { verifSweep(0, 1) }
+func VerifH_C07_api_sweep_dense_02_thorough() { verifSweep(0, 2) }
+func VerifH_C07_api_sweep_dense_03_thorough() { verifSweep(0, 3) }
+func VerifH_C07_api_sweep_dense_04_thorough() { verifSweep(0, 4) }
+func VerifH_C07_api_sweep_dense_05_thorough() { verifSweep(0, 5) }
+func VerifH_C07_api_sweep_dense_06_thorough() { verifSweep(0, 6) }
+func VerifH_C07_api_sweep_dense_07_thorough() { verifSweep(0, 7) }
+func VerifH_C07_api_sweep_dense_08_thorough() { verifSweep(0, 8) }
+func VerifH_C07_api_sweep_dense_09_thorough() { verifSweep(0, 9) }
+func VerifH_C07_api_sweep_dense_10_thorough() { verifSweep(0, 10) }
+func VerifH_C07_api_sweep_dense_11_thorough() { verifSweep(0, 11) }
+func VerifH_C07_api_sweep_dense_12_thorough() { verifSweep(0, 12) }
+func VerifH_C07_api_sweep_dense_13_thorough() { verifSweep(0, 13) }
+func VerifH_C07_api_sweep_dense_14_thorough() { verifSweep(0, 14) }
+func VerifH_C07_api_sweep_dense_15_thorough() { verifSweep(0, 15) }
+func VerifH_C07_api_sweep_dense_16_thorough() { verifSweep(0, 16) }
+func VerifH_C07_api_sweep_dense_17_thorough() { verifSweep(0, 17) }
+func VerifH_C07_api_sweep_dense_18_thorough() { verifSweep(0, 18) }
+func VerifH_C07_api_sweep_dense_19_thorough() { verifSweep(0, 19) }
+func VerifH_C07_api_sweep_dense_20_thorough() { verifSweep(0, 20) }
+func VerifH_C07_api_sweep_dense_21_thorough() { verifSweep(0, 21) }
+func VerifH_C07_api_sweep_v0chunked_00_thorough() { verifSweep(1, 0) }
+func VerifH_C07_api_sweep_v0chunked_01_thorough() { verifSweep(1, 1) }
+func VerifH_C07_api_sweep_v0chunked_02_thorough() { verifSweep(1, 2) }
+func VerifH_C07_api_sweep_v0chunked_03_thorough() { verifSweep(1, 3) }
+func VerifH_C07_api_sweep_v0chunked_04_thorough() { verifSweep(1, 4) }
+func VerifH_C07_api_sweep_v0chunked_05_thorough() { verifSweep(1, 5) }
+func VerifH_C07_api_sweep_v0chunked_06_thorough() { verifSweep(1, 6) }
+func VerifH_C07_api_sweep_v0chunked_07_thorough() { verifSweep(1, 7) }
+func VerifH_C07_api_sweep_v0chunked_08_thorough() { verifSweep(1, 8) }
+func VerifH_C07_api_sweep_v0chunked_09_thorough() { verifSweep(1, 9) }
+func VerifH_C07_api_sweep_v0chunked_10_thorough() { verifSweep(1, 10) }
+func VerifH_C07_api_sweep_v0chunked_11_thorough() { verifSweep(1, 11) }
+func VerifH_C07_api_sweep_v0chunked_12_thorough() { verifSweep(1, 12) }
+func VerifH_C07_api_sweep_v0chunked_13_thorough() { verifSweep(1, 13) }
+func VerifH_C07_api_sweep_vlen_00_thorough() { verifSweep(2, 0) }
+func VerifH_C07_api_sweep_vlen_01_thorough() { verifSweep(2, 1) }
+func VerifH_C07_api_sweep_vlen_02_thorough() { verifSweep(2, 2) }
+func VerifH_C07_api_sweep_vlen_03_thorough() { verifSweep(2, 3) }
+func VerifH_C07_api_sweep_vlen_04_thorough() { verifSweep(2, 4) }
+func VerifH_C07_api_sweep_vlen_05_thorough() { verifSweep(2, 5) }
+func VerifH_C07_api_sweep_vlen_06_thorough() { verifSweep(2, 6) }
+func VerifH_C07_api_sweep_vlen_07_thorough() { verifSweep(2, 7) }
+func VerifH_C07_api_sweep_vlen_08_thorough() { verifSweep(2, 8) }
+func VerifH_C07_api_sweep_vlen_09_thorough() { verifSweep(2, 9) }
